@@ -40,7 +40,7 @@ REQUIRED_CLASSES = ["nontrivial", "order_equal", "order_older", "order_newer", "
                     "connect_ok", "connect_old_firmware", "connect_non_ebb", "connect_silent", "connect_late",
                     "connect_cannot_open", "connect_probe_fault", "connect_no_port", "connect_by_name",
                     "gate_open", "gate_closed", "gate_unidentified", "boundary_version", "connect_retry",
-                    "gate_after_other_board", "order_after_other_board", "connect_after_good_session"]
+                    "gate_after_other_board", "order_after_other_board", "connect_after_good_session", "connect_flush_fault"]
 QUICK_SHARDS = 4
 
 ebb_serial = sut.load("ebb_serial")
@@ -183,19 +183,24 @@ def body_connect(ctx, case):
         if obj.err is not None or obj.port is not None:
             raise sut.HarnessError("prior good session did not end cleanly: %r" % (obj.err,))
     port.begin_call(faults)
+    if case.get("reset_fault"):
+        port.reset_raises = case["reset_fault"]         # the port opens but flushing its input buffer raises
     with patched((ebb3_serial, "comports", lambda: list(comports)), (serial, "Serial", factory)):
         try:
             got = obj.connect(given) if given is not None else obj.connect()
         except Exception as exc:  # pylint: disable=broad-except
             ctx.record(case, classes, any(c >= 10 for c in version))
             ctx.fail("connect() raised %s: %s for %r" % (type(exc).__name__, exc, case), case)
-    expect_ok = found and not open_fault and not faults and is_ebb and supported
+    reset_fault = bool(case.get("reset_fault")) and found and not open_fault
+    expect_ok = found and not open_fault and not faults and not reset_fault and is_ebb and supported
     if not found:
         classes.add("connect_no_port")
     elif open_fault:
         classes.add("connect_cannot_open")
-    elif faults:
+    elif faults or reset_fault:
         classes.add("connect_probe_fault")
+        if reset_fault:
+            classes.add("connect_flush_fault")
     elif kind == "silent":
         classes.add("connect_silent")
     elif kind == "non_ebb":
@@ -392,6 +397,8 @@ def connect_cases(draw):
         case["open_fault"] = draw(st.sampled_from(SERIAL_FAMILY))
     elif fault == 1:
         case["probe_fault"] = [draw(st.integers(0, 3)), draw(st.sampled_from(SERIAL_FAMILY))]
+    elif fault == 2:
+        case["reset_fault"] = draw(st.sampled_from(SERIAL_FAMILY))
     return case
 
 
@@ -406,6 +413,8 @@ def connect_grid():
             for op in range(4):
                 yield {"kind": kind, "v": list(version), "lookup": "first", "probe_fault": [op, exc],
                        "then": "var_read_int32"}
+            yield {"kind": kind, "v": list(version), "lookup": "first", "reset_fault": exc, "then": "command",
+                   "retries": 1}
         for lookup in ("by_name", "by_wrong_name", "none_present"):
             yield {"kind": kind, "v": list(version), "lookup": lookup, "then": "query"}
     for method in sorted(em.METHODS):
